@@ -2763,6 +2763,7 @@ def _sort_formula(f):
 
 
 POLICY = os.environ.get("VERIF_DIFF_POLICY", "medium")
+LAST_EXTRA = []
 
 
 def _vname_mapping(details):
@@ -2868,7 +2869,13 @@ def _compare_summaries(code, ref, near=0.7):
         else:
             unmatched_code.remove(bk)
             details.append(("differs", k[0], k[1], bk[1], best))
+    global LAST_EXTRA
+    extra = [k2 for k2 in unmatched_code if k2[0] in ("exit", "effect", "loop-iter") and not k2[1].startswith(("continue", "break"))]
+    LAST_EXTRA = extra
     if not details:
+        if [k2 for k2 in extra if k2[0] == "effect"]:
+            # everything the reference does is done, under the same conditions -- and something more
+            return "near", [("extra", k2[0], None, k2[1], 0.0) for k2 in extra]
         return "same", []
     if far:
         return "unrecognised", details
@@ -2884,12 +2891,12 @@ def _compare_summaries(code, ref, near=0.7):
     for f_ in gb.values():
         all_ref |= _atoms(f_)
     for d in details:
-        if d[0] == "condition" and any(k2[0] == d[1] for k2 in unmatched_code):
+        if d[0] == "condition" and any(k2[0] == d[1] for k2 in unmatched_code) and not _adds_only(ga, gb, d, all_code, all_ref):
             return "near", details      # the cases this component lost may have gone to a component the reference does not have
         if d[0] == "condition":
             k = (d[1], d[2].rsplit(" when ", 1)[0])
             fa, fb = ga.get(k), gb.get(k)
-            if fa is None or fb is None or not _condition_mutation(fa, fb, all_code, all_ref):
+            if fa is None or fb is None or not _condition_mutation(fa, fb, all_code, all_ref, extra):
                 return "near", details
         elif d[0] == "differs":
             if not _mutation_like(d[2], d[3]):
@@ -2912,7 +2919,18 @@ def _mutation_like(ref_text, code_text, limit=3):
     return 0 < changed <= limit
 
 
-def _condition_mutation(f_code, f_ref, all_code=None, all_ref=None):
+def _adds_only(ga, gb, d, all_code, all_ref):
+    """the condition of this component gained tests that are new to the function and lost none"""
+    k = (d[1], d[2].rsplit(" when ", 1)[0])
+    fa, fb = ga.get(k), gb.get(k)
+    if fa is None or fb is None:
+        return False
+    atoms = lambda f: set(a for a in (gi.f_opaques(f) if f not in (True, False) else []) if isinstance(a, str))
+    a, b = atoms(fa), atoms(fb)
+    return bool(a - b) and not (b - a) and not ((a - b) & all_ref) and not (all_ref - all_code)
+
+
+def _condition_mutation(f_code, f_ref, all_code=None, all_ref=None, extra=()):
     """the two conditions test the same things (or the same but for one constant / operator) and still differ"""
     atoms = lambda f: set(a for a in (gi.f_opaques(f) if f not in (True, False) else []) if isinstance(a, str))
     a, b = atoms(f_code), atoms(f_ref)
@@ -2922,6 +2940,12 @@ def _condition_mutation(f_code, f_ref, all_code=None, all_ref=None):
         return True
     only_a, only_b = sorted(a - b), sorted(b - a)
     if len(only_a) == len(only_b) == 1 and _mutation_like(only_b[0], only_a[0], 2):
+        return True
+    if POLICY not in ("strict", "cautious") and only_a and not only_b and extra and all_code is not None and all_ref is not None \
+            and not (set(only_a) & all_ref) and not (all_ref - all_code):
+        # tests added, new to the function, none lost, AND the function has a way out or an effect the reference does not
+        # have: the new tests select a new outcome (a fast path, a cache hit, a new refusal kind).  A defensive check
+        # that can never fire routes to an outcome that was already there, and is no verdict (below).
         return True
     if POLICY not in ("strict", "cautious") and not only_a and only_b:
         # tests dropped: a case is no longer checked -- provided the function as a whole lost them (they did not move to
